@@ -300,6 +300,55 @@ fn strategy(tier: Tier) -> BoxedStrategy<History> {
     history_strategy(tier, cfg!(feature = "full"))
 }
 
+/// Few, long operations: single calls of 64 KiB .. 12 MiB through every absorbing API after odd prefixes
+/// (subtree ramp-up after an unaligned count, read-buffer and mmap thresholds, rayon splitting depth).
+fn large_strategy(tier: Tier) -> BoxedStrategy<History> {
+    let with_io = cfg!(feature = "full");
+    let max = tier.pick(6u32 << 20, 12u32 << 20);
+    let big = prop_oneof![
+        3 => (6u32..=13, -3i32..=3, any::<bool>()).prop_map(|(j, d, x)| (((1024u32 << j) as i32) + d * if x { 1 } else { 1024 }) as u32),
+        2 => 65_536u32..=1_200_000,
+        2 => (1u32 << 20)..=max,
+    ];
+    let small = prop_oneof![2 => 0u32..=70, 2 => 0u32..=3000, 1 => (0u32..=70).prop_map(|c| c * 1024), 2 => 0u32..=70_000];
+    let api = move |sz: u32, a: u8, seed: u64| -> Op {
+        let s = Size::Abs(sz);
+        if !with_io {
+            return Op::Update(s);
+        }
+        match a % 10 {
+            0 | 1 | 2 => Op::Update(s),
+            3 => Op::WriteAll(s),
+            4 => Op::IoCopy(s),
+            5 | 6 => Op::UpdateReader(s, seed),
+            7 => Op::UpdateRayon(s),
+            8 => Op::UpdateMmap(s),
+            _ => Op::UpdateMmapRayon(s),
+        }
+    };
+    let step = (small, big, any::<u8>(), any::<u64>(), 0u8..6).prop_map(move |(pre, sz, a, seed, tail)| {
+        let mut v = vec![Op::Update(Size::Abs(pre)), api(sz, a, seed)];
+        match tail {
+            0 => v.push(Op::Finalize),
+            1 => v.push(Op::FinalizeXof(200)),
+            2 => v.push(Op::Count),
+            3 => {
+                v.push(Op::Clone(1));
+                v.push(Op::Finalize);
+            }
+            _ => {}
+        }
+        v
+    });
+    (gen::mode4(), gen::content(), prop::collection::vec(step, 1..=3))
+        .prop_map(|(mode, content, steps)| {
+            let mut ops: Vec<Op> = steps.into_iter().flatten().collect();
+            ops.push(Op::Finalize);
+            History { mode, content, budget: 40 << 20, ops }
+        })
+        .boxed()
+}
+
 /// Updates beyond 32-bit sizes: a prefix, then ONE update of `len` zero bytes (lazily mapped
 /// zero pages, no RAM), then a suffix; serial or rayon.
 #[derive(Clone, Debug, Serialize, Deserialize)]
@@ -352,6 +401,16 @@ pub fn subs() -> Vec<Box<dyn DynSub>> {
         rule: "proptest: histories of update/Write/io::copy/update_reader/update_rayon/update_mmap*/finalize/finalize_xof/count/clone/select over <=3 hashers of one mode (0-40 ops, <=256 KiB quick; 0-200 ops, <=8 MiB thorough), sizes resolved against the running total (block/chunk/power-of-two/SIMD-degree boundaries +-delta); model = independent spec over the bytes absorbed by each instance, compared after every op; non-trivial = >=2 absorbing ops, >1 chunk total, some op boundary off a chunk boundary",
         cases: (48_000, 400_000),
         strategy,
+        classify,
+        check,
+        known: None,
+        crumb: false,
+    }),
+    Box::new(PropSub::<History> {
+        name: "large-ops",
+        rule: "proptest: 1-3 steps of (short odd prefix 0-70000 bytes, then ONE call of 64 KiB-6 MiB (quick) / 12 MiB (thorough): 2^j chunks +-3 bytes/chunks, or random) through update / write_all / io::copy / update_reader / update_rayon / update_mmap(_rayon), then finalize/xof/count/clone; same model oracle; non-trivial as for histories",
+        cases: (160, 6_000),
+        strategy: large_strategy,
         classify,
         check,
         known: None,
